@@ -217,12 +217,17 @@ class DTCWTInverse(nn.Module):
             transform.
         """
         low, highs = coeffs
+        # None, 0-dim and empty tensors all stand for an absent input
+        if low is not None and low.numel() <= 1 and low.dim() <= 1:
+            low = None
+        highs = [None if (s is None or (s.numel() <= 1 and s.dim() <= 1))
+                 else s for s in highs]
         J = len(highs)
         mode = mode_to_int(self.mode)
         _, _, h_dim, w_dim = get_dimensions6(
             self.o_dim, self.ri_dim)
         for j, s in zip(range(J-1, 0, -1), highs[1:][::-1]):
-            if s is not None and s.shape != torch.Size([]):
+            if s is not None:
                 assert s.shape[self.o_dim] == 6, "Inverse transform must " \
                     "have input with 6 orientations"
                 assert len(s.shape) == 6, "Bandpass inputs must have " \
@@ -230,18 +235,19 @@ class DTCWTInverse(nn.Module):
                 assert s.shape[self.ri_dim] == 2, "Inputs must be complex " \
                     "with real and imaginary parts in the ri dimension"
                 # Ensure the low and highpass are the right size
-                r, c = low.shape[2:]
-                r1, c1 = s.shape[h_dim], s.shape[w_dim]
-                if r != r1 * 2:
-                    low = low[:,:,1:-1]
-                if c != c1 * 2:
-                    low = low[:,:,:,1:-1]
+                if low is not None:
+                    r, c = low.shape[2:]
+                    r1, c1 = s.shape[h_dim], s.shape[w_dim]
+                    if r != r1 * 2:
+                        low = low[:,:,1:-1]
+                    if c != c1 * 2:
+                        low = low[:,:,:,1:-1]
 
             low = INV_J2PLUS.apply(low, s, self.g0a, self.g1a, self.g0b,
                                    self.g1b, self.o_dim, self.ri_dim, mode)
 
         # Ensure the low and highpass are the right size
-        if highs[0] is not None and highs[0].shape != torch.Size([]):
+        if highs[0] is not None and low is not None:
             r, c = low.shape[2:]
             r1, c1 = highs[0].shape[h_dim], highs[0].shape[w_dim]
             if r != r1 * 2:
